@@ -50,6 +50,10 @@ CHECKS = {
    text="Proved in Coq (Conc/Pool.v) for any number of threads, any programs and EVERY schedule, including the runtime dropping pooled instances at any moment: an instance taken from the pool is never owned by two threads nor owned while pooled (ownership invariant by induction over the schedule), and with instances under the C07 field discipline every finished thread holds exactly the results of running each of its calls alone on a fresh instance (schedule independence). The pool protocol of the real package-level functions is regenerated from oj/oj.go and sen/sen.go on every run and discharged by computation: every pool Get has a deferred Put on the same pool and no function returns the pooled writer's buffer. What a proof about the model cannot exhibit - that the real call bodies touch nothing but their instance, their arguments and immutable shared objects (jp.Expr, Script templates, struct-info caches under their mutex, the pre-registered recomposer) - is observed: 8-16 goroutines run seeded sequences of 30 kinds of calls with shared expressions, scripts, options and struct types under the Go race detector, each result is compared with the same sequence run alone, and every returned buffer is re-read at the end of the round.",
    technique="Coq proof of pool ownership and schedule independence for all interleavings + regenerated pool-protocol facts + race-detector and sequential-equivalence correspondence runs",
    design='6/C08'),
+ 'C15': dict(
+   text="Enc/Struct.v specifies, for struct types and values given as data, the tree the option documentation prescribes (UseTags / KeyExact / lower-case naming, NestEmbed, OmitNil, OmitEmpty, CreateKey, ,omitempty and ,string tags, '-' tags, unexported fields, flattened and nested embedded structs, nil pointers anywhere, the documented difference for objects left empty by alt.Decompose). Proved for all options, types and values: the object of a struct is the create key followed by per-field contributions that depend on their own field only; hence an omitempty tag never changes another field's member, and its own member is unchanged or dropped as a whole. Tied to the code on every run: struct types are generated with reflect.StructOf (field kinds incl. ten integer kinds, pointers, slices, maps, interfaces holding structs, nested and embedded named structs, nil embedded pointers, all tag forms), three values each, all 32 option combinations with and without CreateKey, by pointer and by value; oj.JSON (tight and indented), oj.Marshal, oj.Write, sen.String (tight and indented), pretty.JSON and alt.Decompose are parsed back and compared with the extracted specification, and oj.Marshal with the Go options with encoding/json. Three genuine divergences are recorded as known findings, each attributed per case by an extracted specification variant or a defused witness.",
+   technique="Coq specification of struct encoding with proved locality of omitempty + correspondence of eight encoder entry points on run-time generated struct types against the extracted specification and encoding/json",
+   design='6/C15'),
  'C18': dict(
    text="Proved in Coq for all typed simple trees (ten Go integer kinds, uint64 wrap made explicit) and both OmitNil settings: Simplify after Generify equals Decompose; on JSON-like data with nulls kept Decompose/Dup/Alter is the identity, hence the Generify/Simplify trip is the identity; Generify after Simplify gives the generic tree back; the writers see the same tree in a generic value and in its Simplify; Generify never leaves the int64 range. Deep copy is proved on a model of containers with identity (Alt/Store.v): a copy allocates a fresh identity for every container, denotes the same value, and an in-place mutation of any container of either tree leaves the other unchanged. Tied to the code on every run: alt.Generify/GenAlter/Decompose/Dup/Alter, Node.Simplify/Alter against the extracted functions on typed trees x OmitNil; writer text of gen tree vs Simplify for oj/sen/pretty; gen.Parser vs Generify(oj.Parser); the storage identities of every container of original and copy are observed (reflect pointers) and three in-place mutations are applied to every container of the copy and of the original for five copying operations.",
    technique="Coq proofs of the conversion laws and of copy independence on a store model + correspondence of the kind switches and observed container identities / mutate-after-copy experiments",
